@@ -25,7 +25,7 @@ Definition add_to (a s : string) : string :=
 Definition del_all (names : list string) (m : values) : values :=
   fold_left (fun m n => values_del n m) names m.
 
-(** the repair candidate of C15-F1 (fixes/C15-F1.diff): if the query does not
+(** the repair of C15-F1 (41fd1db), used for every query since 5270ed2 (C15-F6): if the query does not
     parse as a whole, the parameters are removed pair by pair and everything else
     is kept byte for byte *)
 Definition keep_pair (names : list string) (pair : string) : bool :=
@@ -38,7 +38,7 @@ Definition remove_from_raw (names : list string) (q : string) : string :=
   join_with "&" (filter (keep_pair names) (split_on "&" q)).
 
 (** which repairs of RemoveFrom the modelled tree contains: C15-F1 (41fd1db: an
-    unparsable query is handled setting by setting) and C15-F6 (fixes/C15-F6.diff:
+    unparsable query is handled setting by setting) and C15-F6 (5270ed2:
     every query is, nothing is re-encoded or re-ordered) *)
 Record qfix := { qf1 : bool; qf6 : bool }.
 
@@ -49,12 +49,6 @@ Definition remove_from_q (m : qfix) (names : list string) (q : string) : string 
   else let '(vals, err) := parse_query q in
        if err then (if qf1 m then remove_from_raw names q else q)
        else values_encode (del_all names vals).
-
-(** [fixed] = with the repair of C15-F1 only (the interface C08 uses) *)
-Definition remove_from_fx (fixed : bool) : list string -> string -> string :=
-  remove_from_q {| qf1 := fixed; qf6 := false |}.
-
-Definition remove_from : list string -> string -> string := remove_from_fx false.
 
 Definition transform_path (rw : rewriter) (p : string) : string :=
   add_to (rw_add rw) (cut_from (rw_cut rw) p).
@@ -70,8 +64,6 @@ Definition rewrite_q (m : qfix) (rw : rewriter) (u : hurl) : hurl :=
      u_rawpath := if String.eqb path' raw' then rp1 else raw';
      u_query := remove_from_q m (rw_strip_q rw) (u_query u) |}.
 
-Definition rewrite_fx (fixed : bool) : rewriter -> hurl -> hurl := rewrite_q {| qf1 := fixed; qf6 := false |}.
-Definition rewrite : rewriter -> hurl -> hurl := rewrite_fx false.
 
 (** Backend.CreateURL *)
 Definition create_url_q (m : qfix) (b : backend) (u : hurl) : hurl :=
@@ -82,8 +74,6 @@ Definition create_url_q (m : qfix) (b : backend) (u : hurl) : hurl :=
   | None => up
   end.
 
-Definition create_url_fx (fixed : bool) : backend -> hurl -> hurl := create_url_q {| qf1 := fixed; qf6 := false |}.
-Definition create_url : backend -> hurl -> hurl := create_url_fx false.
 
 (** what the HTTP client writes into the request line for this URL *)
 Definition wire_path (u : hurl) : string := escaped_path (u_path u) (u_rawpath u).
